@@ -4,9 +4,11 @@ import (
 	"encoding/json"
 	"fmt"
 	"math/rand"
+	"os"
 	"sort"
 
 	"pegsim/sim"
+	"pegsim/simvfs"
 	"pegsim/world"
 )
 
@@ -26,7 +28,44 @@ type c10Fault struct {
 	Height uint32        `json:"height"`
 	Net    *sim.NetFault `json:"net,omitempty"`
 	SQL    *sqlPoint     `json:"sql,omitempty"`
+	VFS    *vfsPoint     `json:"vfs,omitempty"`
 	Label  string        `json:"label,omitempty"`
+}
+
+// vfsPoint is a fault on the simulated disk: the Idx-th file operation SQLite
+// performs while the given attempt of the block is applied fails with Code
+// (after Partial bytes for a write).
+type vfsPoint struct {
+	Height  uint32 `json:"height"`
+	Attempt int    `json:"attempt"`
+	Idx     int    `json:"idx"`
+	Op      string `json:"op"`   // write, sync, read, truncate, delete, open, lock
+	Role    string `json:"role"` // db, journal, wal, shm
+	Code    string `json:"code"` // ioerr, full, cantopen, busy
+	Partial int    `json:"partial,omitempty"`
+	Stmt    string `json:"stmt,omitempty"` // statement the operation belongs to (label only)
+}
+
+func (p *vfsPoint) rc() int {
+	switch p.Code {
+	case "full":
+		return simvfs.Full
+	case "cantopen":
+		return simvfs.CantOpen
+	case "busy":
+		return simvfs.Busy
+	}
+	switch p.Op {
+	case "read":
+		return simvfs.IOErrRead
+	case "sync":
+		return simvfs.IOErrFsync
+	case "truncate":
+		return simvfs.IOErrTruncate
+	case "delete":
+		return simvfs.IOErrDelete
+	}
+	return simvfs.IOErrWrite
 }
 
 type c10Plan struct {
@@ -40,6 +79,11 @@ type c10Plan struct {
 	PSeed  int64        `json:"pseed"`
 	// MaxPerBlock caps enumerated single faults per block (0 = all).
 	MaxPerBlock int `json:"max_per_block"`
+	// DiskPerBlock: simulated-disk faults enumerated per block (0 = none): the
+	// block is applied once from its checkpoint with the file operations
+	// logged, then single operations are failed (I/O error, disk full with a
+	// partial write, open failure, lock refusal).
+	DiskPerBlock int `json:"disk_per_block,omitempty"`
 }
 
 var netKinds = []string{"net_error", "http_5xx", "rpc_error", "bad_json", "truncated", "corrupt", "id_mismatch", "empty_result"}
@@ -71,6 +115,12 @@ func (checkC10) Gen(seed uint64, tier string) (*Scenario, error) {
 	}
 	plan := c10Plan{Window: 3, PSeed: int64(seed), Pairs: 4}
 	n := len(w.Blocks)
+	if rng.Intn(2) == 0 {
+		plan.DiskPerBlock = 25
+		if tier != "quick" {
+			plan.DiskPerBlock = 100
+		}
+	}
 	if tier == "quick" {
 		plan.MaxPerBlock = 40
 		for i := 0; i < 3; i++ {
@@ -142,6 +192,9 @@ func (f c10Fault) site(ref *Ref) string {
 			return fmt.Sprintf("%s/%s", st[f.SQL.Idx].Caller, st[f.SQL.Idx].Op)
 		}
 	}
+	if f.VFS != nil {
+		return fmt.Sprintf("%s/disk:%s(%s)=%s", f.VFS.Stmt, f.VFS.Op, f.VFS.Role, f.VFS.Code)
+	}
 	return "?"
 }
 
@@ -207,6 +260,18 @@ func (checkC10) Run(env *Env, sc *Scenario) (*Violation, error) {
 					blk = blk[:plan.MaxPerBlock]
 				}
 				singles = append(singles, blk...)
+				if plan.DiskPerBlock > 0 {
+					disk, err := diskFaultsOf(env, w, ref, h)
+					if err != nil {
+						rerr = err
+						return
+					}
+					if len(disk) > plan.DiskPerBlock {
+						rng.Shuffle(len(disk), func(i, j int) { disk[i], disk[j] = disk[j], disk[i] })
+						disk = disk[:plan.DiskPerBlock]
+					}
+					singles = append(singles, disk...)
+				}
 			}
 			for _, s := range singles {
 				cases = append(cases, []c10Fault{s})
@@ -220,10 +285,12 @@ func (checkC10) Run(env *Env, sc *Scenario) (*Violation, error) {
 					nf.Attempt = 1
 					nf.Kind = netKinds[rng.Intn(len(netKinds))]
 					b.Net = &nf
-				} else {
+				} else if b.SQL != nil {
 					sp := *b.SQL
 					sp.Attempt = 2
 					b.SQL = &sp
+				} else {
+					continue // the retry after a disk fault runs with a different page cache: indices do not carry over
 				}
 				cases = append(cases, []c10Fault{a, b})
 			}
@@ -266,12 +333,29 @@ func (checkC10) Run(env *Env, sc *Scenario) (*Violation, error) {
 			r.StallBudget = 3 + len(fs)
 			var nf []sim.NetFault
 			var sp []sqlPoint
+			var vp []vfsPoint
 			for _, f := range fs {
 				if f.Net != nil {
 					nf = append(nf, *f.Net)
 				}
 				if f.SQL != nil {
 					sp = append(sp, *f.SQL)
+				}
+				if f.VFS != nil {
+					vp = append(vp, *f.VFS)
+				}
+			}
+			diskFired := 0
+			if len(vp) > 0 {
+				r.UseVFS = true
+				r.VFS = func(op *simvfs.Op) (int, int) {
+					for _, p := range vp {
+						if r.InBlock() && r.BlockHeight == p.Height && r.Attempt[p.Height] == p.Attempt && r.BlockVfsOp == p.Idx && op.Kind.String() == p.Op && op.Role == p.Role {
+							diskFired++
+							return p.rc(), p.Partial
+						}
+					}
+					return 0, 0
 				}
 			}
 			r.Tr.SetFaults(nf)
@@ -342,6 +426,12 @@ func (checkC10) Run(env *Env, sc *Scenario) (*Violation, error) {
 				nfired += v
 			}
 			env.Stats.Fault("stmt_error", sqlFired)
+			for _, p := range vp {
+				if diskFired > 0 {
+					env.Stats.Fault("disk_"+p.Code+"_"+p.Op, 1)
+				}
+			}
+			nfired += diskFired
 			if nfired > 0 {
 				env.Stats.Seen(fmt.Sprintf("f:%d:%s", h, label))
 				env.Stats.Nontrivial++
@@ -353,7 +443,7 @@ func (checkC10) Run(env *Env, sc *Scenario) (*Violation, error) {
 			if viol != nil {
 				break
 			}
-			if len(nf) == 0 && actual != "" {
+			if len(nf) == 0 && len(vp) == 0 && actual != "" {
 				label = actual // the statement that was actually failed (indices shift after a restart)
 			}
 			if hh, msg := compareHeights(ref, r.Heights); msg != "" {
@@ -398,4 +488,60 @@ func (checkC10) Run(env *Env, sc *Scenario) (*Violation, error) {
 		viol = nil
 	}
 	return viol, rerr
+}
+
+// diskFaultsOf applies block h once from its checkpoint with the daemon's
+// files behind the simulated-disk seam, logs every file operation of the
+// first attempt and returns the single faults to enumerate.
+func diskFaultsOf(env *Env, w *world.World, ref *Ref, h uint32) ([]c10Fault, error) {
+	ck, ok := ref.Ckpt[h-1]
+	if !ok {
+		return nil, nil
+	}
+	dir := env.Dir("probe")
+	defer os.RemoveAll(dir)
+	if err := sim.CopyDir(ck, dir); err != nil {
+		return nil, err
+	}
+	r := sim.NewReplica(w, dir)
+	r.Follow = true
+	r.UseVFS = true
+	cur := ""
+	r.SQL.Before = func(ev *sim.SQLEvent) error {
+		cur = ev.Caller + "/" + ev.Op
+		return nil
+	}
+	var out []c10Fault
+	add := func(op *simvfs.Op, code string, partial int) {
+		out = append(out, c10Fault{Height: h, VFS: &vfsPoint{Height: h, Attempt: 1, Idx: r.BlockVfsOp, Op: op.Kind.String(), Role: op.Role, Code: code, Partial: partial, Stmt: cur}})
+	}
+	r.VFS = func(op *simvfs.Op) (int, int) {
+		if !r.InBlock() || r.BlockHeight != h || r.Attempt[h] != 1 {
+			return 0, 0
+		}
+		switch op.Kind {
+		case simvfs.Write:
+			add(op, "ioerr", 0)
+			add(op, "full", 0)
+			if op.Len > 1024 {
+				add(op, "full", 512*(1+r.BlockVfsOp%(op.Len/512-1)))
+			}
+		case simvfs.Sync, simvfs.Trunc, simvfs.Delete, simvfs.Read:
+			add(op, "ioerr", 0)
+		case simvfs.Open:
+			if op.Role != "db" {
+				add(op, "cantopen", 0)
+			}
+		case simvfs.Lock:
+			add(op, "busy", 0)
+		}
+		return 0, 0
+	}
+	if err := r.Start(); err != nil {
+		return nil, fmt.Errorf("disk probe replica failed to start: %v", err)
+	}
+	env.Stats.Lifetimes++
+	r.RunTo(h)
+	r.Stop()
+	return out, nil
 }
